@@ -30,7 +30,37 @@ def tr_flags(log):
     return info
 
 
+def tr_ctap(log):
+    """regenerate Generated/Ctap.lean from /repo/passkey-types/src/ctap2/*.rs"""
+    import importlib.util, os
+    here = os.path.dirname(os.path.abspath(__file__))
+    spec = importlib.util.spec_from_file_location("ctap_tr", os.path.join(here, "..", "..", "translate", "ctap.py"))
+    m = importlib.util.module_from_spec(spec)
+    spec.loader.exec_module(m)
+    info = m.main()
+    log.write("translator ctap: %s\n" % info)
+    return info
+
+
 PROPS = {
+    "C13": {
+        "modules": ["PasskeyVerif.Props.C13"],
+        "props_files": ["PasskeyVerif/Props/C13.lean"],
+        "translators": [tr_ctap],
+        "harness": [["gen", "C13"]],
+        "technique": "Lean 4 theorems over member tables, status-code tables and conversion orders regenerated from the Rust sources on every run (kernel-checked by decide), plus generic theorems about a hand-written model of the serde_workaround! macro; differential correspondence harness",
+        "trusted": COMMON_TRUSTED + [
+            "translator translate/ctap.py (serde_workaround! attribute tables of make_credential.rs, get_assertion.rs, get_info.rs, hmac_secret.rs; repr_enum! tables, range matches and try_from cascade orders of error.rs); cross-checked on every run by the serialisations of generated messages and by all 256 status bytes",
+            "modelled by hand: what the serde_workaround! macro expands to (Serialize, FieldVisitor, Visitor::visit_map, set_if_none / check_is_already_set) and the derived Deserialize of Options; member values are opaque CBOR items (their own (de)serialisation is serde-derived code outside the model)",
+            "CBOR tokenisation by ciborium (the driver decodes the implementation's bytes with Base/Cbor.lean)",
+        ],
+        "assumptions": ["member values re-serialise to the bytes they were deserialised from (holds for the generated values; checked by the stream)",
+                        "well-formed values exclude Version::Unknown / Extension::Unknown holding a known name"],
+        "level_text": "Kernel-checked: the regenerated member tables equal the CTAP key assignment (required/optional included) and every schema has strictly ascending keys; for every such schema and every well-formed value, deserialize(serialize v) = v, emitted keys are those of the present members in ascending order, unknown integer (0..255) and text keys are skipped, duplicates and missing required members are errors, absent options default to rk=false/up=true/uv=false; all 256 status bytes convert without reaching the unwrap failure and back to themselves, and the client maps 0x2E to credential-not-found and passes every other byte through (decide over the regenerated tables). The models are tied to the code by a differential stream (real serialisations re-read and re-written, injected unknown/duplicate/missing/reordered/bad keys, all status bytes).",
+        "level_note": "Trusted: Lean kernel; axioms propext/Classical.choice/Quot.sound; the translator (cross-checked); the hand model of the macro expansion (checked on explored inputs); Spec = CTAP 2.1/2.2 key tables.",
+        "rule": "all 256 status bytes; all 27 presence/value combinations of the options map; per message type 40 (thorough 400) generated values with every optional member present/absent, each also with 3 injected unknown keys, one duplicated member, one removed member, reversed entries and one bad key.",
+        "exhaustive": False,
+    },
     "C12": {
         "modules": ["PasskeyVerif.Props.C12"],
         "props_files": ["PasskeyVerif/Props/C12.lean"],
